@@ -87,7 +87,7 @@ class C16(Prop):
         if r < 0.9:
             return self.gen_loop(rng)
         from props.c17 import PROP as C17P
-        return C17P.gen_case(rng, tier)
+        return C17P.gen_sender(rng, tier)
 
     def gen_sink(self, rng):
         mss = rng.choice([1, 2, 512, 1000])
